@@ -224,6 +224,19 @@ func monitor(c Case) (kind, what string, params P) {
 				return fail("xsort-search-insertion-point", "returned %d: inserting there breaks the order", r)
 			}
 		}
+		// the index is the lower bound: the position of the first element that is not less than item, i.e.
+		// the earliest of the items equal to it (Search is sort.Search over "item <= x[i]", and its
+		// documentation declares slices.BinarySearchFunc - "the earliest position" - its replacement)
+		lb := len(l)
+		for i, x := range l {
+			if !less(x, item) {
+				lb = i
+				break
+			}
+		}
+		if r != lb {
+			return "xsort-search-not-lower-bound", fmt.Sprintf("%s: returned %d, the first position whose element is not less than %d is %d (of several equal items Search returns the earliest)", c.Line(), r, item, lb), P{"tie_run_at_tail": lb < len(l)-1 && !less(item, l[len(l)-1])}
+		}
 	case "lesscompare":
 		lab, lba := a[0] == "1", a[1] == "1"
 		if lab && lba {
